@@ -30,3 +30,27 @@ chk("C11", "model_checking",
     "All programs of up to 4/5 events x None, every EventCount around the total, every SimTime at/around every timestamp, And/Or of every pair in both operand orders, builder chains max_itr/max_time in both orders, and every depth-2 tree for programs of up to 3/4 events. Checks dispatched prefix, remaining events with timestamps, end time and event_count.",
     "The time-ordered sequence is taken from the real unlimited run (tie-rule independent).",
     "DESIGN.md section 4, C11")
+
+chk("C15", "model_checking",
+    "complete enumeration of add/fetch/cancel/drop histories x payload types x page sizes on the real CQueue with an allocator shadow map (observer hook) and a payload drop ledger",
+    "Every history of up to 8 (quick) / 9 (thorough) operations followed by dropping the queue, for 8 payload types (1 B .. 2000 B, align 1..16, with destructors, ZST) and 2-3 page sizes each. Every allocation is checked for alignment, containment in an owned page and disjointness from live allocations, every release for matching a live allocation, pages for being released once and only when empty; payloads for exactly-once drop at the right moment and bit-for-bit return. A worker killed by a signal counts as a violation.",
+    "Allocator events are reported by the cfg-guarded observer inside allocate/deallocate/add_page/Drop (trusted to be called where the real operations happen); one queue parameterisation (n=2, t=3ns) because bucket geometry is C01's subject.",
+    "DESIGN.md section 4, C15")
+
+chk("C16", "model_checking",
+    "complete enumeration of operation histories over real Message values against a typed-value model with a live-object counter",
+    "All histories of 5 (quick) / 6 (thorough) operations from 54 (set / try_cast / try_content / can_cast for 13 body types incl. layout twins u32-i32-f32-[u8;4]-newtype, derived struct/enum/nested, ZST, non-Clone; try_clone; drop). After every step: cast/borrow succeeds iff same type and yields the stored value, failure returns the message intact, stored values alive == model, length == 64 + independently computed byte length; plus one simulation per type checking the channel charges length*8/bitrate.",
+    "Mutation through content_mut is outside the stated alphabet. Worker crash (double free) counts as violation.",
+    "DESIGN.md section 4, C16")
+
+chk("C17", "model_checking",
+    "complete enumeration of flat dotted-key configurations x include orders on a real Sim against a reference matcher; enumeration of typed access sequences for the type rule",
+    "Every configuration of 1-2 entries over 310 candidate keys (segments a, ab, b, aß, <any> at depth 1-3, properties x and y.z), every 3-entry configuration over the 60 shallow keys (quick) / all keys (thorough), included before, after, or split around node creation, observed on 11 module paths of depth 1-4; props_keys and values must equal the reference matcher's. Type rule: every sequence of 3/4 typed reads/writes over 5 types on 4 configured values and an absent property.",
+    "Flat keys only; when several entries match one property any of their values is accepted.",
+    "DESIGN.md section 4, C17")
+
+chk("C18", "model_checking",
+    "complete enumeration of a bounded NDL grammar with an independent reference elaborator (conformance) + exhaustive single-point mutation (semantic menu and every scalar x token menu) for totality",
+    "All 2048 documents of an 11-feature grammar are built into a real Sim and compared (module paths with registered software, gate clusters, connections with link metrics) with a reference elaborator; 17 semantic single-point mutations (one per error cause in the statement) on all 2048 documents must yield an error; every scalar of 4 hand-written + 64 (quick) / 2048 (thorough) generated documents is replaced by each of 75 garbled or dangling tokens and parsing + elaboration must never panic.",
+    "Build-phase panics on descriptions outside the statement's precondition (gate connected to itself or to more than two peers, duplicate/empty submodule names, non-numeric or negative link parameters) are tolerated and counted, identified by their message.",
+    "DESIGN.md section 4, C18")
